@@ -54,7 +54,7 @@ Deliverables, all written to the directory {out} (create it):
   * demo.py      - a small self-contained program (uses sys.argv[1] as the path of the pyjelly checkout to test, inserting it at sys.path[0] and asserting pyjelly.__file__ is under it) that exits 0 on the unmodified library and exits non-zero (assertion failure with a clear message) on your modified library. It must demonstrate a violation of the property above, not merely a difference in behaviour.
   * meta.json    - {{"property": "{prop}", "summary": "<what you changed>", "needs": "<what specific situation is needed for it to manifest>", "files": [...], "ran": ["<commands you ran and their outcome>"]}}
 
-Before finishing you MUST have verified yourself: (a) the full suite passes with your change (paste the final pytest line into meta.json "ran"), (b) `/venv/bin/python {out}/demo.py {wt}` fails with your change, (c) after `git -C {wt} stash` the same command passes on the clean worktree, then `git -C {wt} stash pop` to restore your change. Leave your change applied in the worktree when you finish. Reply with a 5-line summary.
+Before finishing you MUST have verified yourself: (a) the full suite passes with your change (paste the final pytest line into meta.json "ran"), (b) `/venv/bin/python {out}/demo.py {wt}` fails with your change, (c) the same command passes on the clean library: save your change with `git -C {wt} diff -- pyjelly > {out}/patch.diff`, run `git -C {wt} checkout -- pyjelly`, run the demo (must exit 0), then restore your change with `git -C {wt} apply {out}/patch.diff` (do NOT use `git stash`: the stash is shared by all worktrees of the repository and other engineers are working in theirs). Leave your change applied in the worktree when you finish. Reply with a 5-line summary.
 """
 if earlier:
     text += f"\n\nNOTE: {len(earlier)} other engineers already seeded this property. Their changes were:\n"
